@@ -7,6 +7,12 @@
 #include <string.h>
 #include <rfb/rfb.h>
 #include <rfb/rfbregion.h>
+#include <signal.h>
+#include <unistd.h>
+
+/* watchdog: a region operation that does not return (a loop that stopped advancing) must end the
+   run with a recognisable line instead of blocking the check */
+static void on_alarm(int sig) { static const char m[] = "\nHANG watchdog: the operation did not return within 5 s\n"; (void)sig; fflush(stdout); if (write(1, m, sizeof m - 1) < 0) {} _exit(3); }
 
 #define NREG 16
 static sraRegionPtr regs[NREG];
@@ -37,7 +43,7 @@ int main(void) {
     int n = sscanf(line, "%31s %d %d %d %d %d %d %d %d", op, &a[0], &a[1], &a[2], &a[3], &a[4], &a[5], &a[6], &a[7]);
     char tag[128];
     if (n < 1) continue;
-    if (!strcmp(op, "case")) { for (i = 0; i < NREG; i++) set(i, sraRgnCreate()); fputs(line, stdout); if (line[strlen(line)-1] != '\n') putchar('\n'); }
+    if (!strcmp(op, "case")) { signal(SIGALRM, on_alarm); alarm(5); for (i = 0; i < NREG; i++) set(i, sraRgnCreate()); fputs(line, stdout); if (line[strlen(line)-1] != '\n') putchar('\n'); }
     else if (!strcmp(op, "new")) { set(a[0], sraRgnCreate()); obs("new", regs[a[0]]); }
     else if (!strcmp(op, "rect")) { set(a[0], sraRgnCreateRect(a[1], a[2], a[3], a[4])); obs("rect", regs[a[0]]); }
     else if (!strcmp(op, "dup")) { sraRegionPtr c = sraRgnCreateRgn(regs[a[1]]); set(a[0], c); obs("dup", regs[a[0]]); }
